@@ -20,6 +20,7 @@ import (
 	"fmt"
 	"math"
 	"reflect"
+	"runtime"
 	"strconv"
 	"strings"
 	"testing"
@@ -36,6 +37,7 @@ type c09Info struct {
 }
 
 type c09Ty struct {
+	static reflect.Type // a type declared in this file (unexported / blank fields cannot be built with reflect.StructOf)
 	k    string // u8 u16 u24 u32 u64 named slice array ptr struct
 	n    int
 	e    *c09Ty
@@ -50,12 +52,36 @@ type c09Field struct {
 	variant   bool
 	sel       string
 	val       uint64
+	ro        bool // unexported or blank: reflection can read it, not set it
 }
 
 type c09Named16 uint16
 type c09NamedByte uint8
+type c09PtrU16 *uint16
+
+// struct types that reflect.StructOf cannot build: unexported and blank fields
+type c09Unexp struct {
+	a uint8
+	B uint16
+}
+type c09Blank struct {
+	A uint16
+	_ uint8
+	B uint8
+}
+type c09UnexpInner struct {
+	A     uint8
+	inner struct{ X uint16 }
+}
+type c09UnexpBytes struct {
+	A uint8
+	b []byte `tls:"maxlen:255"`
+}
 
 func (t *c09Ty) rtype() reflect.Type {
+	if t.static != nil {
+		return t.static
+	}
 	switch t.k {
 	case "u8":
 		return reflect.TypeOf(uint8(0))
@@ -75,6 +101,8 @@ func (t *c09Ty) rtype() reflect.Type {
 			return reflect.TypeOf(c09Named16(0))
 		case "u8":
 			return reflect.TypeOf(c09NamedByte(0))
+		case "ptr":
+			return reflect.TypeOf(c09PtrU16(nil))
 		}
 		panic("c09: unsupported named type")
 	case "slice":
@@ -123,7 +151,11 @@ func (t *c09Ty) desc(sb *strings.Builder) {
 	case "struct":
 		fmt.Fprintf(sb, "T %d", len(t.fs))
 		for _, f := range t.fs {
-			fmt.Fprintf(sb, " %s %s ", f.name, c09HexS(f.tag))
+			nm := f.name
+			if f.ro {
+				nm = "~" + nm
+			}
+			fmt.Fprintf(sb, " %s %s ", nm, c09HexS(f.tag))
 			f.t.desc(sb)
 		}
 	}
@@ -706,6 +738,10 @@ func (vg *c09ValGen) gen(t *c09Ty, inf *c09Info, dst reflect.Value, depth int) i
 		}
 		for i, f := range t.fs {
 			fv := dst.Field(i)
+			if f.ro {
+				vg.valid = false // stays at its zero value: reflection cannot set it
+				continue
+			}
 			if f.variant {
 				choice, seen := enums[f.sel]
 				if !seen {
@@ -721,14 +757,21 @@ func (vg *c09ValGen) gen(t *c09Ty, inf *c09Info, dst reflect.Value, depth int) i
 					setIt = !setIt
 					vg.valid = false
 				}
-				if setIt && f.t.k == "ptr" {
+				if setIt && f.t.k == "named" && f.t.e.k == "ptr" {
+					p := reflect.New(f.t.e.e.rtype())
+					n := vg.gen(f.t.e.e, f.info, p.Elem(), depth+1)
+					fv.Set(p.Convert(fv.Type()))
+					if chosen {
+						total += n
+					}
+				} else if setIt && f.t.k == "ptr" {
 					p := reflect.New(f.t.e.rtype())
 					n := vg.gen(f.t.e, f.info, p.Elem(), depth+1)
 					fv.Set(p)
 					if chosen {
 						total += n
 					}
-				} else if f.t.k != "ptr" {
+				} else if f.t.k != "ptr" && !(f.t.k == "named" && f.t.e.k == "ptr") {
 					vg.valid = false
 					vg.gen(f.t, f.info, fv, depth+1)
 				}
@@ -768,6 +811,10 @@ func (vg *c09ValGen) gen(t *c09Ty, inf *c09Info, dst reflect.Value, depth int) i
 func c09Show(t *c09Ty, v reflect.Value, sb *strings.Builder) {
 	switch t.k {
 	case "u8", "u16", "u24", "u32", "u64", "named":
+		if t.k == "named" && t.e.k == "ptr" {
+			c09Show(t.e, v, sb)
+			return
+		}
 		if t.k == "named" && t.e.k != "u8" && t.e.k != "u16" && t.e.k != "u64" {
 			sb.WriteString("?")
 			return
@@ -885,6 +932,7 @@ func c09Encode(v reflect.Value, params string) (out []byte, ok bool, pan string)
 }
 
 type c09Case struct {
+	reuse  reflect.Value // pointer to a destination that already holds a previously decoded value of this type
 	t      *c09Ty
 	rt     reflect.Type
 	params string
@@ -952,6 +1000,28 @@ func c09DecodeCheck(out *verifkit.Out, c *c09Case, data []byte, mode string) {
 		return
 	}
 	out.T(op, "ok "+vs+" "+verifkit.Hex(res.rest))
+	// decoding into a destination that already holds a value: the result must not depend on what was there before
+	// (the model's `dec` has no such input at all) — same value, same rest as the fresh decode above
+	if strings.Contains(c.flags, "zw") {
+		return
+	}
+	if !c.reuse.IsValid() {
+		c.reuse = res.val.Addr()
+		return
+	}
+	out.Count("mode:reused-destination")
+	var rest2 []byte
+	var err2 error
+	before := c09ShowS(c.t, c.reuse.Elem())
+	if pan := verifkit.Guard(func() { rest2, err2 = UnmarshalWithParams(data, c.reuse.Interface(), c.params) }); pan != "" {
+		c09Fail(out, "panic<"+c09PanicClass(pan)+">", c.flags, op, "decoding into a reused destination: "+pan)
+		c.reuse = reflect.Value{}
+		return
+	}
+	if got := c09ShowS(c.t, c.reuse.Elem()); err2 != nil || got != vs || !bytes.Equal(rest2, res.rest) {
+		c09Fail(out, "reuse", c.flags, op, fmt.Sprintf("decoded into a destination holding %s: got %s (err=%v), a fresh destination gives %s", before, got, err2, vs))
+		c.reuse = reflect.Value{}
+	}
 }
 
 var c09FailCount = map[string]int{}
@@ -980,7 +1050,7 @@ func c09PanicClass(msg string) string {
 
 func c09Flags(m map[string]bool) string {
 	var fs []string
-	for _, k := range []string{"nb", "u3", "w8", "zw"} {
+	for _, k := range []string{"nb", "ro", "sz", "u3", "w8", "zw"} {
 		if m[k] {
 			fs = append(fs, k)
 		}
@@ -1026,7 +1096,42 @@ func c09NewCase(r *verifkit.Rand, quirk bool) *c09Case {
 	return c
 }
 
+// c09HostileAlloc: the allocation clause is about hostile input, which mostly *fails* to decode. Inputs that declare
+// the largest lengths their prefixes can hold (all-ones bytes) with almost no data behind them must be refused without
+// the decoder having allocated for the declared length: the bytes allocated during the call (runtime.MemStats) stay
+// within a small constant plus a multiple of the input length.
+func c09HostileAlloc(out *verifkit.Out, r *verifkit.Rand, c *c09Case) {
+	if strings.Contains(c.flags, "zw") && c09Hangs >= 2 {
+		return
+	}
+	ff := bytes.Repeat([]byte{0xff}, 12)
+	inputs := [][]byte{ff, append([]byte{0, 0}, ff...), append(r.Bytes(3), ff...), append([]byte{0x7f}, ff...)}
+	for _, data := range inputs {
+		out.Count("mode:hostile-alloc")
+		var m0, m1 runtime.MemStats
+		runtime.ReadMemStats(&m0)
+		var pan string
+		var ok bool
+		pan = verifkit.Guard(func() {
+			p := reflect.New(c.rt)
+			_, err := UnmarshalWithParams(data, p.Interface(), c.params)
+			ok = err == nil
+		})
+		runtime.ReadMemStats(&m1)
+		delta := m1.TotalAlloc - m0.TotalAlloc
+		op := c.opDec(data)
+		if pan != "" {
+			c09Fail(out, "panic<"+c09PanicClass(pan)+">", c.flags, op, pan)
+			continue
+		}
+		if limit := uint64(256<<10 + 4096*len(data)); delta > limit {
+			c09Fail(out, "alloc", c.flags, op, fmt.Sprintf("%d bytes allocated while decoding %d bytes of input (accepted=%v)", delta, len(data), ok))
+		}
+	}
+}
+
 func c09Run(out *verifkit.Out, r *verifkit.Rand, c *c09Case, nvals int) {
+	c09HostileAlloc(out, r, c)
 	out.Count("types")
 	if c.clean {
 		out.Count("types:clean")
@@ -1189,6 +1294,50 @@ func c09Corpus(out *verifkit.Out, r *verifkit.Rand) {
 		c09Run(out, r, c, 10)
 	}
 	c09Run(out, r, u64sel, 10)
+	// a size clause on a variant: `size:`/`maxval:` must precede `selector:` (it replaces what was collected); for an info
+	// with a selector fieldTagToFieldInfo skips the 1…8 test, so widths 0 and 9 reach the codec
+	vs := func(tag string, t *c09Ty, inf *c09Info) c09Field {
+		return c09Field{name: "V1", tag: tag, t: &c09Ty{k: "ptr", e: t}, info: inf, variant: true, sel: "Sel", val: 1}
+	}
+	bsT := func() *c09Ty { return &c09Ty{k: "slice", e: prim("u8")} }
+	for _, q := range []struct {
+		f     c09Field
+		flags string
+	}{
+		{vs("size:9,selector:Sel,val:1", bsT(), &c09Info{count: 9}), "sz"},
+		{vs("size:9,selector:Sel,val:1", enum(), &c09Info{count: 9}), "sz"},
+		{vs("maxval:255,size:12,selector:Sel,val:1", &c09Ty{k: "slice", e: prim("u16")}, &c09Info{count: 12}), "sz"},
+		{vs("size:0,selector:Sel,val:1", bsT(), &c09Info{count: 0}), ""},
+		{vs("size:0,selector:Sel,val:1", enum(), &c09Info{count: 0}), ""},
+		{vs("size:8,selector:Sel,val:1", bsT(), &c09Info{count: 8}), ""},
+		{vs("maxlen:5,selector:Sel,val:1", prim("u16"), nil), ""},                                // a length range on a non-slice target is ignored
+		{vs("minlen:5,maxlen:2,selector:Sel,val:1", bsT(), &c09Info{count: 1, min: 5, max: 2, ranged: true}), ""}, // inverted range is not checked under a selector
+	} {
+		c := mk(&c09Ty{k: "struct", fs: []c09Field{sel, q.f, {name: "Z", t: prim("u8")}}}, "", nil, q.flags)
+		c.clean = false
+		c09Run(out, r, c, 10)
+	}
+	// a variant whose field type is a defined pointer type (`type P *uint16`): Kind() is Ptr, so it is a variant like any other
+	np2 := c09Field{name: "V1", tag: "selector:Sel,val:1", t: &c09Ty{k: "named", e: &c09Ty{k: "ptr", e: prim("u16")}}, variant: true, sel: "Sel", val: 1}
+	namedPtr := mk(&c09Ty{k: "struct", fs: []c09Field{sel, np2, va("V2", 2, prim("u8"))}}, "", nil, "")
+	c09Run(out, r, namedPtr, 10)
+	// unexported and blank struct fields: Marshal reads them, Unmarshal cannot set them
+	st := func(rt reflect.Type, fs ...c09Field) *c09Case {
+		c := mk(&c09Ty{k: "struct", fs: fs, static: rt}, "", nil, "ro")
+		c.clean = false
+		return c
+	}
+	for _, c := range []*c09Case{
+		st(reflect.TypeOf(c09Unexp{}), c09Field{name: "a", t: prim("u8"), ro: true}, c09Field{name: "B", t: prim("u16")}),
+		st(reflect.TypeOf(c09Blank{}), c09Field{name: "A", t: prim("u16")}, c09Field{name: "_", t: prim("u8"), ro: true}, c09Field{name: "B", t: prim("u8")}),
+		st(reflect.TypeOf(c09UnexpInner{}), c09Field{name: "A", t: prim("u8")},
+			c09Field{name: "inner", t: &c09Ty{k: "struct", fs: []c09Field{{name: "X", t: prim("u16")}}}, ro: true}),
+		st(reflect.TypeOf(c09UnexpBytes{}), c09Field{name: "A", t: prim("u8")},
+			c09Field{name: "b", tag: "maxlen:255", t: bsT(), info: &c09Info{count: 1, max: 255, ranged: true}, ro: true}),
+	} {
+		c09Run(out, r, c, 6)
+		c09DecodeCheck(out, c, h("0102030405"), "corpus")
+	}
 	// F3 last (each hang leaves a spinning goroutine behind): []struct{} with a non-empty body
 	zw := &c09Ty{k: "struct", zero: true}
 	f3 := mk(&c09Ty{k: "slice", e: zw}, "maxlen:255", &c09Info{count: 1, max: 255, ranged: true}, "zw")
